@@ -76,7 +76,7 @@ Proof.
   match goal with |- context [for_each sl ?b ?s0] => set (body := b) end.
   rewrite (for_each_norm (fun (s : section) c => incr (key_of_opt (snd s)) c) body sl c).
   - cbn [bind run_fn]. unfold labels_of. rewrite fold_left_map. reflexivity.
-  - intros x st _. subst body. cbn. rewrite cnt_add_one. reflexivity.
+  - intros [t o] st _. subst body. cbn. rewrite cnt_add_one. reflexivity.
 Qed.
 
 (* ---------------------------------------------------------------- the tail of parse *)
